@@ -139,6 +139,6 @@ fn check(case: &LedgerCase, obs: &mut Obs) -> Verdict {
 pub fn def() -> PropDef {
     let mut d = PropDef::new("C06", "generated multi-security, multi-year, multi-affiliate inputs (a third with one rejected security) rendered with and without --print-full-values and with --total-costs: (1) per error-free security the yearly figures = exact sum of its rows' full-precision gain cells by SETTLEMENT year, total = sum of years, years shown = years with a gain-bearing row; aggregate year = sum over error-free securities, 'Since inception' = sum of years (1e-9); (2) every money figure ($x, -$x, +$x, (x CUR)) of the default rendering equals the corresponding full-precision figure rounded half away from zero to cents, figure by figure, in every table incl. costs; (3) text and CSV front ends show the render model's cells. Non-trivial = >= 2 securities and >= 2 years with gains, or a row whose trade and settlement years differ, or a figure at a .xx5 midpoint. Distinct = distinct case content.");
     d.assumptions = vec!["full-precision cells are the figures --print-full-values prints; sums recomputed exactly from them"];
-    d.subs.push(Box::new(Sub::<LedgerCase> { name: "totals", cases_quick: 12_000, cases_thorough: 400_000, strategy: Box::new(strategy), to_json: LedgerCase::to_json, from_json: LedgerCase::from_json, check }));
+    d.subs.push(Box::new(Sub::<LedgerCase> { name: "totals", cases_quick: 24_000, cases_thorough: 400_000, strategy: Box::new(strategy), to_json: LedgerCase::to_json, from_json: LedgerCase::from_json, check }));
     d
 }
